@@ -6,7 +6,7 @@
    [all_off] is the Model with every deviation switch off (conformant behaviour); the switches D21, D23, D26, D120, D121,
    D122, D123 are what the unchanged code does today — each is refuted below on the witness the check replays. *)
 From PV Require Import Common.Util Gen.ServiceConsts Life.Services Life.ServicesSpec Life.ServiceCalls Life.ServicesCheck
-  Proofs.LifeServices Proofs.LifeServiceCalls Proofs.LifeServicesRefuted.
+  Proofs.LifeServices Proofs.LifeServiceCalls Proofs.LifeServicesRefuted Proofs.LifeServicesRefine.
 
 (* After ANY sequence of operations (start-up, exec of def/redefine/del statements in a live context, reload of one file,
    unload, reload of everything; any number of contexts, function names, service names, aliases, duplicates), in either
@@ -72,6 +72,29 @@ Theorem C12_outgoing_controls : forall s task_ctx kws x,
   NoDup (map kw_key kws) -> In x kws -> recognised s x = true -> In (HGiven x) (snd (split s task_ctx kws)).
 Proof. exact outgoing_controls. Qed.
 Print Assumptions C12_outgoing_controls.
+
+
+(* ---- refinement: the conformant Model and the reference semantics (ServicesSpec.v) make the same observations ----
+   Full statement aimed at:
+     forall legacy ops k, LifeServicesRefine.handler_gen (run_ops all_off legacy ops init_st) k
+                          = LifeServicesRefine.ref_gen (fold_left ref_op ops init_rst) k
+   i.e. after ANY operation sequence (define / redefine / delete / run-time definitions / reload / unload / reload of everything,
+   any number of contexts, aliases, duplicates, garbage-collection points) every name is registered in the Model iff the Spec
+   requires it and the same function generation answers (hence the same returned value).
+   Proved: for the legacy subsystem in full (C12_refines_legacy); for the default subsystem under [ops_ok]: every operation
+   except a reload of everything / start-up that leaves MORE THAN ONE script file (C12_refines_partial).  Missing: several
+   contexts waiting for ctx.start() at the same time (pyscript.reload "*" with >= 2 files) - needs the commutation
+   "start of context i commutes with loading context j > i"; the invariant C12_registry_invariant covers that case. *)
+Theorem C12_refines_legacy : forall (ops : list op) (k : key),
+  LifeServicesRefine.handler_gen (run_ops all_off true ops init_st) k = LifeServicesRefine.ref_gen (fold_left ref_op ops init_rst) k.
+Proof. exact refines_observations_legacy. Qed.
+Print Assumptions C12_refines_legacy.
+
+Theorem C12_refines_partial : forall (legacy : bool) (ops : list op), ops_ok legacy ops [] ->
+  forall k, LifeServicesRefine.handler_gen (run_ops all_off legacy ops init_st) k
+            = LifeServicesRefine.ref_gen (fold_left ref_op ops init_rst) k.
+Proof. exact refines_observations. Qed.
+Print Assumptions C12_refines_partial.
 
 (* ---- the deviations of the unchanged code: each switch alone makes the Model leave the reference semantics ---- *)
 Theorem C12_refuted_D21 : refuted 21.   Proof. exact refuted_D21. Qed.
